@@ -61,6 +61,10 @@ def Variant.asIs : Variant := ‚ü®false, false, false, false, false, false, true‚
 /-- What the client has sent so far: nothing, a POST head plus body bytes (the handler has been
     called: `client_aware`), or a fragment of a request line (handler never called). -/
 inductive Kind | none | post | frag
+  /-- a complete GET: the handler queues a reply -/
+  | get
+  /-- the head of a POST with `Expect: 100-continue` -/
+  | expect
   deriving DecidableEq, Repr
 
 structure Conn where
@@ -85,6 +89,11 @@ structure Conn where
   buf : Nat := 0
   /-- the scripted handler takes one upload byte per call and leaves the rest in the buffer -/
   slow : Bool := false
+  /-- a reply (or the interim `100 Continue`) is being sent: the connection waits for its socket to
+      take more bytes (`MHD_EVENT_LOOP_INFO_WRITE`) -/
+  replying : Bool := false
+  /-- script bookkeeping: the server side of this connection sends through the slow-reader shim -/
+  limited : Bool := false
   /-- the scripted handler suspends the connection at its next upload call -/
   wantSusp : Bool := false
   /-- epoll: MHD_EPOLL_STATE_READ_READY / _IN_EPOLL_SET / _ERROR -/
@@ -108,6 +117,8 @@ inductive Event
   | tmoClose (i : Id) (aware : Bool)
   | otherClose (i : Id) (code : Nat) (aware : Bool)
   | suspended (i : Id)
+  /-- the request was answered completely: `MHD_REQUEST_TERMINATED_COMPLETED_OK` -/
+  | completed (i : Id)
   deriving DecidableEq, Repr
 
 structure Daemon where
@@ -135,6 +146,11 @@ structure Daemon where
   /-- the kernel's epoll ready list, oldest first -/
   kq : List Id := []
   dataPending : Bool := false
+  /-- PARAMETER of the next round (the model does not follow reply bytes): the replying connections whose
+      socket takes at least one more byte in that round (a send with progress, possibly partial) ‚Ä¶ -/
+  wset : List Id := []
+  /-- ‚Ä¶ and those whose reply is out completely after it -/
+  fset : List Id := []
   resuming : Bool := false
   haveNew : Bool := false
   /-- a checked list operation failed (would be memory corruption in C) -/
@@ -318,7 +334,8 @@ def cleanupConnection (d : Daemon) (i : Id) : Daemon :=
 /-- one iteration of `MHD_cleanup_connections`: the connection is freed (the client-side facts of
     the script survive in the record) -/
 def freeOne (d : Daemon) (i : Id) : Daemon :=
-  { (d.set i { kind := (d.c i).kind, peerClosed := (d.c i).peerClosed, wantSusp := (d.c i).wantSusp, slow := (d.c i).slow })
+  { (d.set i { kind := (d.c i).kind, peerClosed := (d.c i).peerClosed, wantSusp := (d.c i).wantSusp, slow := (d.c i).slow,
+                 limited := (d.c i).limited })
       with eready := without d.eready i, kq := without d.kq i }
 
 /-- `MHD_cleanup_connections`: from the tail of the cleanup list -/
